@@ -411,25 +411,21 @@ func (r *RateLimiterRules) Rule(
 		return NewRateLimiter(rule.Limit, rule.Burst, checksum, t, desc), true
 	}
 
-	if hint.ClientID != "" && (r.clientid != nil && l.Type() == "clientid") &&
-		l.UpdatedAt() >= r.clientid.UpdatedAt() {
-		return l, false
-	}
-
-	if r.nets != nil && l.Type() == "net" && l.UpdatedAt() >= r.nets.UpdatedAt() {
-		return l, false
-	}
-
-	if i, isnew, found := r.ruleByNode(addr, handler, hint, l); found {
-		return i, isnew
-	}
-
+	// NOTE the rule is selected by the full precedence for every request; the
+	// limiter cached for the addr and handler may have been selected for another
+	// client id, or before a rule set of higher precedence was set. The cached
+	// limiter is kept as it is only when the same rule is still selected.
 	checksum, rule, t, desc, refreshed := r.rule(addr, handler, hint, l.Type(), l.UpdatedAt())
-	if !refreshed {
-		return l, false
-	}
 
-	return l.Update(rule.Limit, rule.Burst, checksum, t, desc), false
+	switch {
+	case !refreshed:
+		return l, false
+	case l.Type() == t && l.Checksum() == checksum && l.Desc() == desc &&
+		l.Limit() == rule.Limit && l.Burst() == rule.Burst:
+		return l, false
+	default:
+		return l.Update(rule.Limit, rule.Burst, checksum, t, desc), false
+	}
 }
 
 func (r *RateLimiterRules) DefaultRuleMap() RateLimiterRuleMap {
@@ -597,37 +593,6 @@ func (r *RateLimiterRules) IsValid([]byte) error {
 	}
 
 	return nil
-}
-
-func (r *RateLimiterRules) ruleByNode(
-	addr net.Addr,
-	handler string,
-	hint RateLimitRuleHint,
-	l *RateLimiter,
-) (_ *RateLimiter, isnew, found bool) {
-	var node base.Address
-	if hint.Node != nil {
-		node = hint.Node
-	}
-
-	if node != nil && r.nodes != nil && l.Type() == "node" && l.UpdatedAt() >= r.nodes.UpdatedAt() {
-		return l, false, true
-	}
-
-	if node != nil && r.suffrage != nil && l.Type() == "suffrage" && l.UpdatedAt() >= r.suffrage.UpdatedAt() {
-		switch st, exists, err := r.IsInConsensusNodesFunc(); {
-		case err != nil:
-		case !exists(node):
-		case st.String() != l.Checksum():
-			if checksum, rule, desc, found := r.suffrage.Rule(addr, handler, hint); found {
-				return l.Update(rule.Limit, rule.Burst, checksum, "suffrage", desc), false, true
-			}
-		default:
-			return l, false, true
-		}
-	}
-
-	return l, false, false
 }
 
 type RateLimiterRuleSet interface {
